@@ -161,13 +161,21 @@ def gen_loop_case(rng, max_seg=40):
         base = rng.choice([0.001, 0.01, 0.1, 0.1, 0.4, 1.2])
         return [round(base * rng.uniform(0.5, 2.0), 4) if rng.random() < 0.7 else base for _ in range(k)]
     lossless = rng.random() < 0.25
+    if rng.random() < 0.08:
+        # a long-delay path (satellite hop, or a model that counts in milliseconds) with a matching initial estimate
+        rtt = rng.choice([100.0, 150.0, 400.0])
+        far = rng.choice([20.0, 35.0, 60.0])
+        slow = lambda: [round(far * rng.uniform(0.8, 1.2), 3) for _ in range(rng.choice([1, 2, 3]))]
+        lossless = rng.random() < 0.7
+    else:
+        slow = None
     span = nseg + 12
 
     def drops():
         if lossless:
             return []
         return sorted(rng.sample(range(span), min(span, rng.choice([0, 1, 1, 2, 3, 4, 6]))))
-    return {'kind': 'loop', 'cc': cc, 'nseg': nseg, 'rtt_estimate': rtt, 'ddelays': delays(), 'adelays': delays(),
+    return {'kind': 'loop', 'cc': cc, 'nseg': nseg, 'rtt_estimate': rtt, 'ddelays': (slow or delays)(), 'adelays': (slow or delays)(),
             'ddrops': drops(), 'adrops': drops()}
 
 
@@ -243,16 +251,17 @@ def loop_oracle(case, sr, sink, ended):
                       'signature': 'loop-sink-incomplete'})
     if not case['ddrops'] and not case['adrops']:
         # loss-free: if every segment's ACK came back before its timer expired, nothing is sent twice
+        # "round-trip time below the sender's current RTO": the RTO is the public attribute `rto` as it stood when the
+        # segment was sent (not the expiry the implementation happened to arm its timer with)
         expiry, acked_at = {}, {}
         for r in sr.records:
             if r['tag'] == 'W':
-                exp = dict(r['after']['timers'])
                 for q, sz, t in r['tx']:
-                    expiry.setdefault(q, exp.get(q))
+                    expiry.setdefault(q, r['now'] + r['after']['rto'])
             elif r['tag'] == 'A':
                 pid = int(r['line'].split()[4])
                 acked_at.setdefault(pid, r['now'])
-        timely = all(q in acked_at and expiry[q] is not None and acked_at[q] < expiry[q] for q in expiry)
+        timely = all(q in acked_at and acked_at[q] < expiry[q] for q in expiry)
         seqs = [q for q, sz, t in sr.tx.log]
         if timely and len(seqs) != len(set(seqs)):
             dup = [q for q, c in collections.Counter(seqs).items() if c > 1]
